@@ -16,7 +16,7 @@ RULE = (
     "shared Points, Parallelogram / Parallelepiped from a shared base Point and Vectors, tetrahedra from four shared "
     "polygons, prisms / bipyramids / pyramids with 7-9 faces, negations -p of pool polygons, edges handed out by polygon.segments(), plus free Planes and Lines. "
     "Rules: construct; mutate a shared argument in place (Point.move, p.x = v, "
-    "p[i] = v, vec[i] = v, move of a shared polygon, move of any pool Segment / HalfLine / polygon); run one of the queries of the statement (intersection, in, "
+    "p[i] = v, vec[i] = v, move of a shared polygon, move of any pool Segment / HalfLine / polygon); a burst of membership queries of every pool point on each new 7-9-face body; run one of the queries of the statement (intersection, in, "
     "distance, angle, parallel, orthogonal, ==, hash, repr, length, area, volume) on an ordered pair of pool "
     "objects; deepcopy an object and mutate the copy or the original. Oracle: the public-attribute snapshot of both "
     "operands is identical before and after every query; the query's answer on the pool objects equals its answer "
